@@ -116,7 +116,7 @@ def _herm(spec, ctx, R):
     n = 1 + spec["idx"] % spec["maxn"] if spec["idx"] % 3 else int(rng.integers(2, spec["maxn"] + 1))
     r, sign = spec["ratio"], spec["sign"]
     e = _spectrum(rng, n, r, sign)
-    scale = [1.0, 1.0, 1e-3, 1e3][spec["idx"] % 4]
+    scale = [1.0, 1.0, 1e-3, 1e3, 1e-9, 1e-13, 1e9, 1.0][spec["idx"] % 8]
     e = e * scale
     A, Uq = refq.hermitian_with_eigs(rng, e)
     lam1 = e[0]
@@ -190,7 +190,7 @@ def _bounded(spec, ctx, R):
     elif c == "upper_tri":
         A = gen.structured(rng, "upper_tri", n, n)
     else:
-        A = refq.randq(rng, n, n) * float(rng.choice([1e-6, 1e6]))
+        A = refq.randq(rng, n, n) * float(rng.choice([1e-14, 1e-6, 1e6, 1e12]))
     s1 = float(embed.svals(A)[0])
     A0 = refq.fa(A).copy()
     for k in range(spec["nseeds"]):
